@@ -455,3 +455,941 @@ def replay(pid, path):
         for k in "IMPS":
             print(k, (res[0].get(k) or "")[:2000])
     return 0
+
+
+# ================================================================= search-based properties
+INFO_RE = re.compile(r"^info pv((?: [a-h][1-8][a-h][1-8])+) depth (\d+) nodes (\d+) score (?:cp (-?\d+)|mate (-?\d+))$")
+
+
+def parse_search(line):
+    """fields of a harness/driver search line"""
+    d = {"raw": line or ""}
+    m = re.match(r"search panic=(\d) consulted=(\d+) sends=(.*?) infos=(.*) restored=(\d)(.*)$", line or "")
+    if not m:
+        d["bad"] = True
+        return d
+    d["panic"] = int(m.group(1))
+    d["consulted"] = int(m.group(2))
+    d["sends"] = [s for s in m.group(3).split(",") if s]
+    d["infos"] = [s for s in m.group(4).split("|") if s]
+    d["restored"] = int(m.group(5))
+    d["tail"] = m.group(6)
+    return d
+
+
+def small_positions(rng, n, max_pieces=10):
+    """legal non-terminal positions with few pieces (so that shallow searches are cheap)"""
+    starts = [f for f in gens.corpus_fens() if sum(c.isalpha() for c in f.split(" ")[0]) <= max_pieces + 4]
+    games = gens.playouts(rng, starts, n, 24)
+    out = []
+    seen = set()
+    for g in games:
+        for k, f in enumerate(g.fens):
+            pieces = sum(c.isalpha() for c in f.split(" ")[0])
+            if pieces <= max_pieces and "terminal" not in g.tags[k] and f not in seen:
+                seen.add(f)
+                out.append((g.start, g.moves[:k], f))
+    rng.shuffle(out)
+    return out
+
+
+def root_legal_moves(fens):
+    """specification: legal moves (uci text) of each FEN"""
+    res = V.run_sharded([V.DRIVER, V.ZDUMP], ["gen\tA\t%s\t" % f for f in fens])
+    out = []
+    for l in res:
+        if l.startswith("S "):
+            mv = l.split("moves=")[-1] if "moves=" in l else ""
+            out.append(set(x.split("=")[0] for x in mv.split(",") if x))
+    return out
+
+
+def check_info_lines(o, case, infos, legal, mate_score):
+    """C18: grammar, depth monotone, strictly increasing within a depth, bounds, first pv move legal"""
+    bad = []
+    last_depth = 0
+    last_score = None
+    for l in infos:
+        m = INFO_RE.match(l)
+        if not m:
+            bad.append("malformed info line: %r" % l)
+            continue
+        pv = m.group(1).strip().split(" ")
+        depth = int(m.group(2))
+        if depth < 1 or depth < last_depth:
+            bad.append("depth decreases or is < 1: %r" % l)
+        if m.group(4) is not None:
+            x = int(m.group(4))
+            if abs(x) >= mate_score:
+                bad.append("cp score reaches the mate/infinity range: %r" % l)
+            val = x
+        else:
+            y = int(m.group(5))
+            if y == 0:
+                bad.append("mate 0: %r" % l)
+            # order mate scores for the monotonicity test: mate in fewer moves is better
+            val = (10 ** 7 - y) if y > 0 else (-10 ** 7 - y)
+        if depth == last_depth and last_score is not None and not (val > last_score):
+            bad.append("score does not increase within depth %d: %r" % (depth, l))
+        if legal is not None and pv[0] not in set(x[:4] for x in legal):
+            bad.append("first pv move %s is not legal in the searched position: %r" % (pv[0], l))
+        last_depth, last_score = depth, val
+    for b in bad[:3]:
+        o.violation("input", "%s on %s" % (b, case), {"case": case, "infos": infos})
+    return not bad
+
+
+def mate_score_const():
+    txt = open(os.path.join(V.COQ, "Gen", "Consts.v")).read()
+    return int(re.search(r"Definition MATE_SCORE : Z := (\d+)", txt).group(1))
+
+
+def sweep_expiry(o, tier, rng, want_c18=False):
+    """C07/C18: for small searches enumerate every expiry index k from 0 up to the end of a reference run"""
+    pos = small_positions(rng, 30 if tier == "quick" else 400, max_pieces=7)
+    npos = 10 if tier == "quick" else 120
+    kmax = 70 if tier == "quick" else 260
+    pos = pos[:npos]
+    legal = root_legal_moves([f for _, _, f in pos])
+    mate = mate_score_const()
+    cases = []
+    index = []
+    for pi, (start, moves, fen) in enumerate(pos):
+        cmd = pos_cmd(start, moves)
+        for k in range(0, kmax + 1):
+            cases.append("search\t%s\t%d" % (cmd, k))
+            index.append((pi, k))
+    res = V.run_cases(cases)
+    mm, _ = V.compare(res, use_spec=False)
+    o.evaluations += len(res)
+    o.traces += len(res)
+    hist_add(o, "batch:search runs with every expiry index 0..%d" % kmax, len(res))
+    o.oblige("search model = implementation for every expiry index (sends, info lines, consultations, table; %d runs)" % len(res), not mm)
+    for r in mm[:3]:
+        o.violation("corr", "search correspondence broken on %s: %s" % (r["case"][:160], V.first_diff(r.get("I"), r.get("M"))),
+                    {"correspondence": "search", "case": r["case"], "impl": r.get("I"), "model": r.get("M")})
+    ok_a = ok_b = ok_c = ok_d = ok_e = ok_18 = True
+    prev = {}
+    distinct = 0
+    for (pi, k), r in zip(index, res):
+        d = parse_search(r.get("I"))
+        case = r["case"]
+        if d.get("bad"):
+            ok_e = False
+            o.violation("input", "search did not complete normally: %s -> %s" % (case, (r.get("I") or "")[:200]), {"case": case, "impl": r.get("I")})
+            continue
+        if d["panic"]:
+            ok_e = False
+            o.violation("input", "search panics with expiry index %d: %s" % (k, case), {"case": case, "impl": r.get("I")})
+        if not d["restored"]:
+            ok_d = False
+            o.violation("input", "repetition record not restored with expiry index %d: %s" % (k, case), {"case": case, "impl": r.get("I")})
+        lm = legal[pi] if pi < len(legal) else None
+        for s in d["sends"]:
+            if lm is not None and s.split("#")[0] not in lm:
+                ok_a = False
+                o.violation("input", "handed-back move %s is not a legal root move (expiry %d): %s" % (s.split("#")[0], k, case), {"case": case, "send": s, "legal": sorted(lm)})
+        if not d["sends"] and lm:
+            ok_a = False
+            o.violation("input", "nothing handed back although the root has moves (expiry %d): %s" % (k, case), {"case": case, "impl": r.get("I")})
+        # no value of an aborted sub-search in a report
+        for l in d["infos"]:
+            m = INFO_RE.match(l)
+            if m and m.group(4) is not None and abs(int(m.group(4))) >= mate:
+                ok_b = False
+                o.violation("input", "aborted value reaches a report (expiry %d): %r on %s" % (k, l, case), {"case": case, "info": l})
+        # prefix: a larger allowance only extends the reports
+        if (pi, k - 1) in prev:
+            pd = prev[(pi, k - 1)]
+            if pd["infos"] != d["infos"][:len(pd["infos"])]:
+                ok_c = False
+                o.violation("input", "reports under expiry %d are not a prefix of those under %d: %s" % (k - 1, k, case), {"case": case, "shorter": pd["infos"], "longer": d["infos"]})
+            if pd["infos"] and pd["sends"] != d["sends"][:len(pd["sends"])]:
+                ok_c = False
+                o.violation("input", "accepted moves under expiry %d are not a prefix of those under %d: %s" % (k - 1, k, case), {"case": case, "shorter": pd["sends"], "longer": d["sends"]})
+        if not d["infos"]:
+            # nothing completed: the fallback is the first move of the search's own ordering
+            first = (r.get("O") or "").split(";")[0].split(" ")[0]
+            if d["sends"] and first and d["sends"][0].split("#")[0] != first:
+                ok_c = False
+                o.violation("input", "fallback move %s is not the first move of the ordering (%s): %s" % (d["sends"][0].split("#")[0], first, case), {"case": case})
+        prev[(pi, k)] = d
+        if want_c18:
+            ok_18 = check_info_lines(o, case, d["infos"], lm, mate) and ok_18
+        if 0 < k < d["consulted"] or d["infos"]:
+            distinct += 1
+    o.distinct += distinct
+    for r in res[:3]:
+        o.samples.append(r["case"])
+    return dict(a=ok_a, b=ok_b, c=ok_c, d=ok_d, e=ok_e, c18=ok_18, kmax=kmax, npos=len(pos))
+
+
+@prop("C07", "C07.v", ["C07_table_add_remove"])
+def run_c07(o, tier, rng, prep):
+    r = sweep_expiry(o, tier, rng)
+    o.oblige("(a) every handed-back move is a legal root move, and one is always handed back", r["a"])
+    o.oblige("(b) no aborted value in a reported score", r["b"])
+    o.oblige("(c) reports under expiry k are a prefix of those under k+1; fallback = first move of the ordering", r["c"])
+    o.oblige("(d) repetition record restored on every exit path", r["d"])
+    o.oblige("(e) no panic", r["e"])
+    o.rule = "%d small legal positions (<= 7 pieces, with their game history) x every expiry index k = 0..%d of the virtual clock (the k-th consultation reports expiry), run on the real get_best_move through the hooks and replayed node for node on the model with the logged sort orders; non-trivial = k falls strictly inside the search or at least one improvement was reported" % (r["npos"], r["kmax"])
+    o.assumptions.append("ply < 100 (array bounds of pv/killer tables): maximal ply observed is far below; hypothesis of the model, not proved")
+    o.assumptions.append("two-thread composition: after the join added by the F10 repair the I/O thread only consumes sends; FIFO delivery of mpsc assumed")
+
+
+@prop("C18", "C18.v", ["C18_mate_number_nonzero"], binary=True)
+def run_c18(o, tier, rng, prep):
+    r = sweep_expiry(o, tier, rng, want_c18=True)
+    o.oblige("info lines well-formed, depth monotone, scores strictly increasing within a depth, bounded, first pv move legal -- for every expiry index", r["c18"] and r["b"])
+    o.rule = "info lines captured from the real search (hook H3) on %d small positions x every expiry index 0..%d, plus the stdout of timed searches on the real binary; non-trivial = at least one info line" % (r["npos"], r["kmax"])
+    # the real binary's stdout under real clocks
+    bb = blackbox_searches(o, tier, rng, slices=(5, 30, 80) if tier == "quick" else (1, 5, 30, 80, 200, 400), n=6 if tier == "quick" else 40)
+    mate = mate_score_const()
+    ok = True
+    for case, fen, legal, lines, _ in bb:
+        infos = [re.sub(r" time \d+$", "", l) for l in lines if l.startswith("info")]
+        ok = check_info_lines(o, case, infos, legal, mate) and ok
+    o.oblige("info lines on the real binary's stdout (%d timed searches)" % len(bb), ok)
+
+
+@prop("C12", "C12.v", ["C12_oracle_window"])
+def run_c12(o, tier, rng, prep):
+    pos = small_positions(rng, 40 if tier == "quick" else 600, max_pieces=9)
+    pos = pos[: (24 if tier == "quick" else 400)]
+    budget = 6000 if tier == "quick" else 30000
+    cases = []
+    for start, moves, fen in pos:
+        cases.append("search\t%s\t%d" % (pos_cmd(start, moves), budget))    # with its game history
+        cases.append("search\tposition fen %s\t%d" % (fen, budget))          # without history
+    res = V.run_cases(cases)
+    mm, _ = V.compare(res, use_spec=False)
+    o.evaluations += len(res)
+    o.traces += len(res)
+    o.oblige("search model = implementation node for node on %d searches" % len(res), not mm)
+    for r in mm[:3]:
+        o.violation("corr", "search correspondence broken on %s: %s" % (r["case"][:160], V.first_diff(r.get("I"), r.get("M"))),
+                    {"correspondence": "search", "case": r["case"], "impl": r.get("I"), "model": r.get("M")})
+    ocases = ["oracle\t%s\t3" % c.split("\t")[1] for c in cases]
+    ores = V.run_sharded([V.DRIVER, V.ZDUMP], ocases)
+    oracle = [l[2:] for l in ores if l.startswith("S ")]
+    ok = True
+    judged = 0
+    for r, orc in zip(res, oracle):
+        d = parse_search(r.get("I"))
+        if d.get("bad"):
+            continue
+        per_depth = {}
+        for l in d["infos"]:
+            m = INFO_RE.match(l)
+            if m:
+                per_depth[int(m.group(2))] = (("cp %s" % m.group(4)) if m.group(4) is not None else ("mate %s" % m.group(5)), m.group(1).strip().split(" ")[0])
+        maxd = max(per_depth) if per_depth else 0
+        for dd in (1, 2, 3):
+            # a depth is complete when a deeper one was started
+            if dd < maxd and dd in per_depth:
+                m = re.search(r"d%d=([^:]+):(\S+)" % dd, orc)
+                if not m:
+                    continue
+                judged += 1
+                score, first = per_depth[dd]
+                if score != m.group(1) or first not in m.group(2).split(","):
+                    ok = False
+                    o.violation("input", "depth %d: engine reports %s via %s, minimax value is %s attained by %s: %s" % (
+                        dd, score, first, m.group(1), m.group(2), r["case"]), {"case": r["case"], "engine": per_depth, "oracle": orc})
+    o.distinct += judged
+    hist_add(o, "depth-results judged against the minimax oracle", judged)
+    o.oblige("reported score = minimax value and selected move attains it, depths 1-3 (%d depth results)" % judged, ok)
+    for r in res[:3]:
+        o.samples.append(r["case"])
+    o.rule = "legal non-terminal positions with <= 9 pieces from specification-generated games, each searched with its game history in the repetition record and without; final score and first PV move of every completed depth 1..3 judged against the extracted plain alpha-beta negamax over the model's generator/evaluation; non-trivial = one judged depth result"
+
+
+def blackbox_searches(o, tier, rng, slices, n):
+    """timed searches on the real binary; returns (case, fen, legal moves, stdout lines of the reply, seconds)"""
+    import blackbox
+    pos = small_positions(rng, n * 2, max_pieces=14)[:n]
+    legal = root_legal_moves([f for _, _, f in pos])
+    out = []
+    eng = blackbox.Engine(V.BINARY)
+    try:
+        eng.handshake()
+        for i, (start, moves, fen) in enumerate(pos):
+            sl = slices[i % len(slices)]
+            # movestogo 1: slice = 0.8 * (clock - 100)
+            clock = int(sl / 0.8) + 100
+            cmd = pos_cmd(start, moves)
+            stm = fen.split(" ")[1]
+            go = "go wtime %d btime %d movestogo 1" % ((clock, 99999) if stm == "w" else (99999, clock))
+            eng.send(cmd)
+            t0 = time.time()
+            eng.send(go)
+            lines = eng.read_until(lambda l: l.startswith("bestmove"), timeout=sl / 1000.0 + 10)
+            dt = time.time() - t0
+            out.append(("%s | %s" % (cmd, go), fen, legal[i] if i < len(legal) else None, lines, dt))
+            o.evaluations += 1
+    finally:
+        eng.close()
+    return out
+
+
+# ---------------------------------------------------------------- C11
+MATE_FENS = [
+    "6k1/5ppp/8/8/8/8/8/R5K1 w - - 0 1",            # back-rank mate in one
+    "7k/5Q2/6K1/8/8/8/8/8 w - - 0 1",                # several mates in one, and stalemating moves
+    "7k/8/5K2/6Q1/8/8/8/8 w - - 0 1",                # stalemate trap Qg6?? vs mates
+    "k7/8/1K6/8/8/8/8/7R w - - 0 1",                 # Rh8#
+    "8/8/8/8/8/5k2/8/5K1R w - - 0 1",
+    "4k3/8/4K3/8/8/8/8/7R w - - 0 1",
+    "7k/R7/5K2/8/8/8/8/8 w - - 0 1",
+    "5k2/R7/5K2/8/8/8/8/8 w - - 0 1",                # mate in 2 region
+    "1k6/8/1K6/8/8/8/8/7Q w - - 0 1",
+    "r5k1/5ppp/8/8/8/8/5PPP/6K1 b - - 0 1",          # black mates on the back rank
+    "6k1/5ppp/8/8/8/8/r4PPP/6K1 w - - 0 1",          # white must avoid being mated in one
+    "6k1/5ppp/8/8/8/8/r4PPP/5RK1 w - - 0 1",
+    "k7/2Q5/1K6/8/8/8/8/8 b - - 0 1",                # black is stalemated? (no: b8 free) near-stalemate
+    "k7/2Q5/2K5/8/8/8/8/8 w - - 0 1",                # Qc8# / Qb7# vs stalemate Kb6
+    "7k/5K2/6Q1/8/8/8/8/8 b - - 0 1",                # black stalemated: terminal, skipped by the generator
+    "8/8/8/8/8/6k1/6p1/6K1 w - - 0 1",               # white stalemated
+    "5rk1/5ppp/8/8/8/8/Q4PPP/6K1 w - - 0 1",
+    "3r2k1/5ppp/8/8/8/8/5PPP/3R2K1 w - - 0 1",
+    "2r3k1/5ppp/8/8/8/8/5PPP/3R2K1 b - - 0 1",
+    "8/8/8/8/8/2k5/1q6/K7 w - - 0 1",
+    "8/8/8/8/8/1k6/2q5/K7 b - - 0 1",                # many mates in one for black
+    "8/8/8/8/8/1k6/7q/K7 b - - 0 1",
+]
+
+
+@prop("C11", "C11.v", ["C11_mate_text_nonzero"])
+def run_c11(o, tier, rng, prep):
+    legal = gens.filter_legal(MATE_FENS)
+    roots = [(f, [], f) for f, n, _ in legal if n > 0]
+    extra = small_positions(rng, 60 if tier == "quick" else 1200, max_pieces=5)
+    roots += extra[: (25 if tier == "quick" else 600)]
+    budget = 2500 if tier == "quick" else 12000
+    cases = ["search\t%s\t%d" % (pos_cmd(s, m), budget) for s, m, _ in roots]
+    res = V.run_cases(cases)
+    mm, _ = V.compare(res, use_spec=False)
+    o.evaluations += len(res)
+    o.traces += len(res)
+    o.oblige("search model = implementation node for node on %d searches near mate/stalemate" % len(res), not mm)
+    for r in mm[:3]:
+        o.violation("corr", "search correspondence broken on %s: %s" % (r["case"][:160], V.first_diff(r.get("I"), r.get("M"))),
+                    {"correspondence": "search", "case": r["case"], "impl": r.get("I"), "model": r.get("M")})
+    # questions for the rules-level mate solver
+    q = []          # (kind, root index, info, oracle case)
+    for ri, (r, (start, moves, fen)) in enumerate(zip(res, roots)):
+        d = parse_search(r.get("I"))
+        if d.get("bad"):
+            continue
+        cmd = pos_cmd(start, moves)
+        per = []
+        for j, l in enumerate(d["infos"]):
+            m = INFO_RE.match(l)
+            if m:
+                per.append((j, int(m.group(2)), m.group(5), m.group(1).strip().split(" ")[0]))
+        maxd = max([p[1] for p in per], default=0)
+        for idx, (j, depth, mate, first) in enumerate(per):
+            if mate is None:
+                continue
+            n = int(mate)
+            last_of_depth = (idx + 1 == len(per)) or per[idx + 1][1] != depth
+            if n > 0 and n <= 3:
+                q.append(("claim+", ri, (l, n), "mate\t%s\t%d" % (cmd, n)))
+            elif n < 0 and -n <= 2 and last_of_depth and depth < maxd:
+                q.append(("claim-", ri, (l, n), "mate\t%s\t%d" % (cmd, -n)))
+        q.append(("root1", ri, None, "mate\t%s\t1" % cmd))
+        # moves handed back once iteration 1 (resp. 2) has finished
+        done1 = [j for (j, depth, _, _) in per if depth == 1]
+        done2 = [j for (j, depth, _, _) in per if depth == 2]
+        if maxd > 1 and done1:
+            for s in d["sends"][done1[-1]:]:
+                mv = s.split("#")[0]
+                sep = " " if " moves " in cmd else " moves "
+                q.append(("after1", ri, mv, "mate\t%s%s%s\t1" % (cmd, sep, mv)))
+        if maxd > 2 and done2:
+            for s in d["sends"][done2[-1]:]:
+                mv = s.split("#")[0]
+                sep = " " if " moves " in cmd else " moves "
+                q.append(("after2", ri, mv, "mate\t%s%s%s\t1" % (cmd, sep, mv)))
+    # all root moves, to know whether being mated in one can be avoided
+    lm = root_legal_moves([f for _, _, f in roots])
+    for ri, (start, moves, fen) in enumerate(roots):
+        cmd = pos_cmd(start, moves)
+        sep = " " if " moves " in cmd else " moves "
+        for mv in sorted(lm[ri]) if ri < len(lm) else []:
+            q.append(("child", ri, mv, "mate\t%s%s%s\t1" % (cmd, sep, mv)))
+    ans = [l[2:] for l in V.run_sharded([V.DRIVER, V.ZDUMP], [x[3] for x in q]) if l.startswith("S ")]
+    o.evaluations += len(q)
+    can_mate1 = {}
+    child_mates = {}
+    for (kind, ri, info, _), a in zip(q, ans):
+        f = dict(kv.split("=") for kv in a.split(" ")[1:] if "=" in kv)
+        if kind == "root1":
+            can_mate1[ri] = f.get("in") == "1"
+        if kind == "child":
+            child_mates.setdefault(ri, {})[info] = f.get("in") == "1"   # opponent mates in one after this move
+    ok_claims = ok_m1 = ok_avoid = True
+    judged = 0
+    for (kind, ri, info, oc), a in zip(q, ans):
+        f = dict(kv.split("=") for kv in a.split(" ")[1:] if "=" in kv)
+        case = cases[ri]
+        if kind == "claim+":
+            judged += 1
+            if f.get("in") != "1":
+                ok_claims = False
+                o.violation("input", "engine reports %r but no forced mate in %d exists: %s" % (info[0], info[1], case), {"case": case, "info": info[0], "solver": a})
+        elif kind == "claim-":
+            judged += 1
+            if f.get("mated") != "1":
+                ok_claims = False
+                o.violation("input", "engine reports %r but the side to move is not mated within %d: %s" % (info[0], -info[1], case), {"case": case, "info": info[0], "solver": a})
+        elif kind == "after1" and can_mate1.get(ri):
+            judged += 1
+            if f.get("checkmate") != "1":
+                ok_m1 = False
+                o.violation("input", "mate in one exists and iteration 1 finished, yet %s (not mate) is handed back: %s" % (info, case), {"case": case, "move": info})
+        elif kind == "after2":
+            cm = child_mates.get(ri, {})
+            if cm and not all(cm.values()) and not can_mate1.get(ri):
+                judged += 1
+                if f.get("in") == "1":
+                    ok_avoid = False
+                    o.violation("input", "after iteration 2 the engine plays %s into a mate in one that could be avoided: %s" % (info, case), {"case": case, "move": info})
+    o.distinct += judged
+    hist_add(o, "mate claims / mate-in-one / avoidance judgements", judged)
+    o.oblige("every `score mate N` claim is true (N>0 every line; N<0 last line of a completed depth)", ok_claims)
+    o.oblige("a mate in one is played once iteration 1 has finished", ok_m1)
+    o.oblige("an avoidable mate in one is not played into once iteration 2 has finished", ok_avoid)
+    for r in res[:3]:
+        o.samples.append(r["case"])
+    o.rule = "hand-built positions around mate and stalemate plus random <=5-piece positions from specification-generated games; every mate claim with |N| <= 3 judged by the rules-level AND/OR solver (Spec.mate_in / mated_in), stalemating moves included; non-trivial = one judged claim or move"
+    o.assumptions.append("from iteration 4 on null-move pruning has no soundness theorem; those depths are judged by the solver on the sampled positions only")
+
+
+# ---------------------------------------------------------------- C09
+def exact_slice_bounds(clock, inc, mtg):
+    """the bounds C09 states, in exact rational arithmetic"""
+    from fractions import Fraction
+    return clock, inc, mtg
+
+
+@prop("C09", "C09.v", ["C09_own_side_only", "C09_zero"], binary=True)
+def run_c09(o, tier, rng, prep):
+    from fractions import Fraction
+    grid = [-2 ** 127, -2 ** 64, -1000, -1, 0, 1, 50, 99, 100, 101, 102, 103, 104, 150, 1000, 59999, 300000,
+            2 ** 31, 2 ** 53 - 1, 2 ** 53, 2 ** 53 + 1, 2 ** 64 + 12345, 2 ** 100 + 7, 2 ** 126 + 12345, 2 ** 127 - 1]
+    incs = [-2 ** 127, -5, 0, 1, 7, 100, 10000, 2 ** 70, 2 ** 127 - 1]
+    mtgs = [None, 1, 2, 30, 40, 2 ** 32 - 1]
+    combos = []
+    for c in grid:
+        for i in incs:
+            for m in mtgs:
+                combos.append((c, i, m))
+    n_rand = 300 if tier == "quick" else 20000
+    for _ in range(n_rand):
+        e = rng.choice([8, 16, 31, 53, 54, 64, 100, 126])
+        c = rng.randrange(-2 ** 10, 2 ** e)
+        i = rng.choice([0, 0, rng.randrange(-100, 2 ** rng.choice([8, 20, 60]))])
+        m = rng.choice([None, None, rng.randrange(1, 2 ** rng.choice([3, 6, 16, 32]))])
+        combos.append((c, i, m))
+    if tier == "quick":
+        rng.shuffle(combos)
+        combos = combos[:1500]
+    cases = []
+    meta = []
+    for c, i, m in combos:
+        for side in "wb":
+            oc, oi = rng.choice(grid), rng.choice(incs)      # the other side's fields: must not matter
+            if side == "w":
+                toks = ["go", "wtime", str(c), "btime", str(oc), "winc", str(i), "binc", str(oi)]
+            else:
+                toks = ["go", "btime", str(c), "wtime", str(oc), "binc", str(i), "winc", str(oi)]
+            if m is not None:
+                toks += ["movestogo", str(m)]
+            if rng.random() < 0.2:
+                toks.insert(rng.randrange(1, len(toks) + 1, 2), "ponder")   # an unknown token at a non-value position
+            cases.append("slice\t%s\t%s" % (" ".join(toks), side))
+            meta.append((c, i, m, side))
+    res = V.run_cases(cases)
+    mm, _ = V.compare(res, use_spec=False)
+    report(o, "time slice and go parsing (exact integers) on clock grids", res, mm, [], nontrivial=lambda r: not (r.get("I") or "").endswith("slice=0"))
+    ok = True
+    own = {}
+    for (c, i, m, side), r in zip(meta, res):
+        mt = re.search(r"wtime=(-?\d+) btime=(-?\d+) winc=(-?\d+) binc=(-?\d+) mtg=(\S+) slice=(\d+)", r.get("I") or "")
+        if not mt:
+            ok = False
+            o.violation("input", "go parsing/slice failed: %s -> %s" % (r["case"], r.get("I")), {"case": r["case"], "impl": r.get("I")})
+            continue
+        wt, bt, wi, bi = [int(mt.group(k)) for k in range(1, 5)]
+        sl = int(mt.group(6))
+        parsed = (wt, wi) if side == "w" else (bt, bi)
+        if parsed != (c, i) or (mt.group(5) != ("-" if m is None else str(m))):
+            ok = False
+            o.violation("input", "go fields parsed wrongly: %s -> %s" % (r["case"], r.get("I")), {"case": r["case"], "impl": r.get("I")})
+        key = (c, i, m)
+        if key in own and own[key] != sl:
+            ok = False
+            o.violation("input", "slice depends on more than the mover's clock/increment/movestogo: %s gives %d, elsewhere %d" % (r["case"], sl, own[key]), {"case": r["case"]})
+        own[key] = sl
+        mm_ = 30 if m is None else m
+        if sl > max(c, 0):
+            ok = False
+            o.violation("input", "planned time %d exceeds the mover's clock %d: %s" % (sl, c, r["case"]), {"case": r["case"], "slice": sl, "clock": c})
+        if c > 100:
+            ideal = Fraction(8, 10) * (c - 100) / mm_
+            # whole milliseconds (+1/2) and four binary64 roundings (relative 2^-50 is generous)
+            if Fraction(sl) > ideal + Fraction(1, 2) + ideal / 2 ** 50 + Fraction(c, 2 ** 50) or Fraction(sl) < ideal - Fraction(1, 2) - ideal / 2 ** 50 - Fraction(c, 2 ** 50):
+                ok = False
+                o.violation("input", "planned time %d is not 80%% of (clock-100)/movestogo = %s: %s" % (sl, float(ideal), r["case"]), {"case": r["case"], "slice": sl})
+        if c <= 100 and i <= 0 and sl != 0:
+            ok = False
+            o.violation("input", "no usable clock and no increment but %d ms planned: %s" % (sl, r["case"]), {"case": r["case"], "slice": sl})
+    o.oblige("bounds of C09 on the implementation's slices (exact rational arithmetic)", ok)
+    # measured delay on the real binary
+    bb = blackbox_searches(o, tier, rng, slices=(40, 120, 250) if tier == "quick" else (1, 40, 120, 250, 600), n=6 if tier == "quick" else 30)
+    okd = True
+    for i, (case, fen, legal, lines, dt) in enumerate(bb):
+        m = re.search(r"go wtime (\d+) btime (\d+) movestogo 1", case)
+        clock = int(m.group(1)) if fen.split(" ")[1] == "w" else int(m.group(2))
+        plan = round(0.8 * (clock - 100))
+        if lines[-1] is None or dt * 1000 > plan + 1500 or dt * 1000 < plan - 10:
+            okd = False
+            o.violation("input", "go answered after %.0f ms, plan was %d ms: %s" % (dt * 1000, plan, case), {"case": case, "ms": dt * 1000, "plan": plan})
+    o.oblige("measured go->bestmove delay equals the plan up to overhead (%d timed searches on the real binary)" % len(bb), okd)
+    o.rule = "clock x increment x movestogo grid {-2^127..2^127-1 incl. 99..104, 2^53+-1} x {absent,1,2,30,40,2^32-1} x both colours plus random values, other side's fields randomised, an unknown token inserted in 20% of the commands; non-trivial = non-zero slice"
+    o.assumptions.append("IEEE-754 binary64 conformance of the CPU for - * / and of the i128->f64 conversion")
+    o.trusted.append("Flocq 4.1.0 (BinarySingleNaN) as the model of binary64 arithmetic")
+
+
+# ================================================================= session properties (real binary)
+WS = [0x9, 0xa, 0xb, 0xc, 0xd, 0x20, 0x85, 0xa0, 0x1680] + list(range(0x2000, 0x200b)) + [0x2028, 0x2029, 0x202f, 0x205f, 0x3000]
+GARBAGE = ["", " ", "   ", "\t", "xyzzy", "isreadyy", "go2", "Position startpos", "żółć", "∀x", "  ", "stop", "ponderhit",
+           "debug on", "register later", "uci2", "0000", "position", "quit now"[:4] + "x", "readyok", "bestmove e2e4", " isready"]
+
+
+def spec_words(s):
+    """tokens of a line: maximal runs of non-White_Space characters"""
+    out = []
+    cur = ""
+    for ch in s:
+        if ord(ch) in WS:
+            if cur:
+                out.append(cur)
+            cur = ""
+        else:
+            cur += ch
+    if cur:
+        out.append(cur)
+    return out
+
+
+def legal_after(cmd_moves):
+    """for a list of position commands return the set of legal moves of each resulting position (specification)"""
+    res = V.run_sharded([V.DRIVER, V.ZDUMP], ["pos\t" + c for c in cmd_moves])
+    projs = [l[2:] for l in res if l.startswith("S ")]
+    return projs
+
+
+def proj_to_fen(p):
+    """'pos Ok <pl64>/<stm>/<rights>/<ep>#key counts=..' -> FEN"""
+    body = p.split(" ")[2].split("#")[0]
+    pl, stm, rights, ep = body.split("/")
+    rows = []
+    for r in range(7, -1, -1):
+        row = pl[8 * r:8 * r + 8]
+        out = ""
+        run = 0
+        for ch in row:
+            if ch == ".":
+                run += 1
+            else:
+                if run:
+                    out += str(run)
+                    run = 0
+                out += ch
+        if run:
+            out += str(run)
+        rows.append(out)
+    rs = "".join(c for c, b in zip("KQkq", rights) if b == "1") or "-"
+    e = "-"
+    if ep != "-":
+        f, r = ep.split(",")
+        e = "abcdefgh"[int(f)] + str(int(r) + 1)
+    return "%s %s %s %s 0 1" % ("/".join(rows), stm, rs, e)
+
+
+def judge_bestmove(o, case, line, legal_set, terminal):
+    m = re.match(r"^bestmove (\S+)$", line or "")
+    if not m:
+        o.violation("input", "no well-formed bestmove line (%r): %s" % (line, case), {"case": case, "line": line})
+        return False
+    mv = m.group(1)
+    if terminal:
+        if mv not in ("0000", "(none)"):
+            o.violation("input", "terminal position answered with %s instead of a null move: %s" % (mv, case), {"case": case, "line": line})
+            return False
+        return True
+    if mv not in legal_set:
+        o.violation("input", "bestmove %s is not a legal move in UCI notation (legal: %s): %s" % (mv, ",".join(sorted(legal_set)), case), {"case": case, "line": line, "legal": sorted(legal_set)})
+        return False
+    return True
+
+
+def go_variants(rng, stm):
+    me, other = ("w", "b") if stm == "w" else ("b", "w")
+    v = [
+        "go",
+        "go %stime 0 %stime 0" % (me, other),
+        "go %stime -500 %stime 1000" % (me, other),
+        "go %stime 150 %stime 150" % (me, other),
+        "go %stime 200 %stime 200 movestogo 1" % (me, other),
+        "go %stime 50 %sinc 100 %stime 99999" % (me, me, other),
+        "go %stime 400 %stime 400 %sinc 5 %sinc 5 movestogo 2" % (me, other, me, other),
+        "go infinite_but_unknown %stime 130" % me,
+        "go movestogo 4294967295 %stime 100000" % me,
+    ]
+    return rng.choice(v)
+
+
+def session_positions(rng, n, include_terminal=False):
+    starts = gens.corpus_fens()
+    games = gens.playouts(rng, starts, n, 40)
+    out = []
+    for g in games:
+        ks = list(range(len(g.fens)))
+        k = rng.choice(ks)
+        if include_terminal and "terminal" in g.tags[-1] and rng.random() < 0.7:
+            k = len(g.fens) - 1
+        out.append((g.start, g.moves[:k], g.fens[k], "terminal" in g.tags[k]))
+    return out
+
+
+TERMINAL_SESSIONS = [
+    ("position startpos moves f2f3 e7e5 g2g4 d8h4", True),                       # fool's mate: white is mated
+    ("position fen 7k/5K2/6Q1/8/8/8/8/8 b - - 0 1", True),                      # stalemate
+    ("position fen 8/8/8/8/8/6k1/6p1/6K1 w - - 0 1", True),                     # stalemate
+    ("position fen R5k1/5ppp/8/8/8/8/8/6K1 b - - 0 1", True),                   # back-rank mate
+    ("position startpos moves e2e4 e7e5 f1c4 b8c6 d1h5 g8f6 h5f7", True),       # scholar's mate
+]
+
+
+@prop("C03", "C03.v", ["C03_answer_is_a_send", "C03_terminal_answer"], binary=True)
+def run_c03(o, tier, rng, prep):
+    import blackbox
+    n = 30 if tier == "quick" else 400
+    pos = [p for p in session_positions(rng, n * 2) if not p[3]][:n]
+    legal = root_legal_moves([p[2] for p in pos])
+    eng = blackbox.Engine(V.BINARY)
+    ok = True
+    chains = 0
+    try:
+        eng.handshake()
+        for i, (start, moves, fen, _) in enumerate(pos):
+            cmd = pos_cmd(start, moves)
+            eng.send(cmd)
+            stm = fen.split(" ")[1]
+            cur_cmd = cmd
+            cur_legal = legal[i]
+            # a chain of go commands without a new position: each answer must be legal in the
+            # position reached by playing the previous answers
+            for step in range(rng.choice([1, 1, 2, 3])):
+                go = go_variants(rng, stm)
+                eng.send(go)
+                lines = eng.read_until(lambda l: l.startswith("bestmove"), timeout=15)
+                o.evaluations += 1
+                case = "%s | %s (go #%d)" % (cmd, go, step + 1)
+                nb = sum(1 for l in lines if l and l.startswith("bestmove"))
+                if lines[-1] is None or nb != 1:
+                    ok = False
+                    o.violation("input", "go produced %d bestmove lines: %s" % (nb, case), {"case": case, "lines": lines})
+                    break
+                if not cur_legal:
+                    break
+                if not judge_bestmove(o, case, lines[-1], cur_legal, False):
+                    ok = False
+                    break
+                mv = lines[-1].split(" ")[1]
+                sep = " " if " moves " in cur_cmd else " moves "
+                cur_cmd = cur_cmd + sep + mv
+                nxt = legal_after([cur_cmd])
+                nfen = proj_to_fen(nxt[0])
+                cur_legal = root_legal_moves([nfen])[0]
+                stm = "b" if stm == "w" else "w"
+                chains += 1
+                if len(o.samples) < 6:
+                    o.samples.append(case + " -> " + lines[-1])
+            # exactly one: nothing else may follow
+            extra = eng.read_line(0.03)
+            if extra is not None and extra.startswith("bestmove"):
+                ok = False
+                o.violation("input", "a second bestmove line followed: %s" % cmd, {"case": cmd, "line": extra})
+        alive = eng.isready()
+        if not alive:
+            ok = False
+            o.violation("input", "engine does not answer isready after the session", {"stderr": eng.stderr_text()})
+    finally:
+        eng.close()
+    o.distinct += chains
+    o.oblige("exactly one legal, well-formed bestmove per go, along go chains, on the real binary (%d go commands)" % o.evaluations, ok)
+    session_model_corr(o, tier, rng)
+    o.rule = "sessions on the real binary: positions set by startpos/FEN plus legal move lists from specification-generated games, go with clocks from {none, zero, negative, tiny, increment only, movestogo 1..2^32-1, unknown tokens}, chains of 1-3 go commands without a new position; each bestmove judged by the specification's legal move list of the position reached; non-trivial = one judged answer"
+    o.assumptions.append("thread interleavings are sampled on the real binary; the model proves the protocol logic for every (expiry index, pick) schedule")
+
+
+def session_model_corr(o, tier, rng):
+    """the session model's go step against the real search: the answer is one of the sends (in-process, virtual clock)"""
+    pos = small_positions(rng, 20, max_pieces=8)[: (8 if tier == "quick" else 60)]
+    cases = []
+    for start, moves, fen in pos:
+        for k in (0, 1, 5, 40):
+            cases.append("search\t%s\t%d" % (pos_cmd(start, moves), k))
+    res = V.run_cases(cases)
+    mm, _ = V.compare(res, use_spec=False)
+    o.evaluations += len(res)
+    o.traces += len(res)
+    o.oblige("search model = implementation on the go step's searches (%d runs)" % len(res), not mm)
+    for r in mm[:2]:
+        o.violation("corr", "search correspondence broken on %s: %s" % (r["case"][:160], V.first_diff(r.get("I"), r.get("M"))),
+                    {"correspondence": "search", "case": r["case"], "impl": r.get("I"), "model": r.get("M")})
+
+
+@prop("C08", "C08.v", ["C08_terminal_is_answered"], binary=True)
+def run_c08(o, tier, rng, prep):
+    import blackbox
+    n = 16 if tier == "quick" else 200
+    pos = session_positions(rng, n, include_terminal=True)
+    sessions = [(c, True, None) for c, _ in TERMINAL_SESSIONS]
+    for start, moves, fen, term in pos:
+        sessions.append((pos_cmd(start, moves), term, fen))
+    legal = root_legal_moves([s[2] for s in sessions if s[2]])
+    li = 0
+    eng = blackbox.Engine(V.BINARY)
+    ok = True
+    try:
+        eng.handshake()
+        for cmd, term, fen in sessions:
+            lm = None
+            if fen:
+                lm = legal[li]
+                li += 1
+            sl = rng.choice([20, 60, 150])
+            clock = int(sl / 0.8) + 100
+            go = "go wtime %d btime %d movestogo 1" % (clock, clock)
+            eng.send(cmd)
+            t0 = time.time()
+            eng.send(go)
+            lines = eng.read_until(lambda l: l.startswith("bestmove"), timeout=sl / 1000.0 + 5)
+            dt = (time.time() - t0) * 1000
+            o.evaluations += 1
+            case = "%s | %s" % (cmd, go)
+            hist_add(o, "terminal" if term else "non-terminal")
+            if lines[-1] is None:
+                ok = False
+                o.violation("input", "no bestmove within %d ms + 5 s: %s" % (sl, case), {"case": case, "lines": lines[-5:]})
+                eng.close()
+                eng = blackbox.Engine(V.BINARY)
+                eng.handshake()
+                continue
+            if dt > sl + 1500:
+                ok = False
+                o.violation("input", "bestmove after %.0f ms, slice %d ms: %s" % (dt, sl, case), {"case": case, "ms": dt})
+            if lm is not None or term:
+                ok = judge_bestmove(o, case, lines[-1], lm or set(), term) and ok
+            if not eng.isready(3):
+                ok = False
+                o.violation("input", "no readyok after the answer: %s" % case, {"case": case, "stderr": eng.stderr_text()})
+                eng.close()
+                eng = blackbox.Engine(V.BINARY)
+                eng.handshake()
+            if len(o.samples) < 8:
+                o.samples.append(case + " -> " + str(lines[-1]))
+        # further commands are still served correctly: a fresh search on the start position
+        eng.send("position startpos")
+        eng.send("go wtime 200 btime 200 movestogo 1")
+        lines = eng.read_until(lambda l: l.startswith("bestmove"), timeout=6)
+        if lines[-1] is None:
+            ok = False
+            o.violation("input", "engine no longer serves go after the session", {"lines": lines[-5:]})
+    finally:
+        eng.close()
+    o.distinct += o.hist.get("terminal", 0) + o.hist.get("non-terminal", 0)
+    o.oblige("every go answered within slice + overhead, null move on terminal positions, isready served afterwards (%d sessions on the real binary)" % len(sessions), ok)
+    o.rule = "real binary: checkmate and stalemate positions (hand-built and ends of specification-generated games) and non-terminal ones, slices 20-150 ms with movestogo 1; bestmove awaited slice+5 s, isready after every answer; non-trivial = one answered go"
+    o.assumptions.append("timing and thread liveness are sampled, not proved")
+
+
+@prop("C16", "C16.v", ["C16_position_resets"], binary=True)
+def run_c16(o, tier, rng, prep):
+    import blackbox
+    n = 10 if tier == "quick" else 120
+    probes = [p for p in session_positions(rng, n * 2) if not p[3]][:n]
+    traffic_pos = session_positions(rng, 30)
+    ok = True
+    okt = True
+
+    def reply(eng, cmd, go, timeout=10):
+        eng.send(cmd)
+        eng.send(go)
+        lines = eng.read_until(lambda l: l.startswith("bestmove"), timeout=timeout)
+        return lines
+
+    def improvements(lines):
+        out = []
+        for l in lines:
+            if l and l.startswith("info"):
+                m = re.match(r"info pv (\S+).* depth (\d+) nodes (\d+) score (\S+ -?\d+)", l)
+                if m:
+                    out.append((int(m.group(2)), int(m.group(3)), m.group(4), m.group(1)))
+        return out
+
+    for i, (start, moves, fen, _) in enumerate(probes):
+        cmd = pos_cmd(start, moves)
+        fresh = blackbox.Engine(V.BINARY)
+        used = blackbox.Engine(V.BINARY)
+        try:
+            fresh.handshake()
+            used.handshake()
+            # arbitrary earlier traffic on the used engine
+            for _ in range(rng.choice([2, 4, 6])):
+                t = rng.choice(traffic_pos)
+                kind = rng.randrange(6)
+                if kind == 0:
+                    used.send("ucinewgame")
+                elif kind == 1:
+                    used.send("setoption name Foo value Bar")
+                elif kind == 2:
+                    used.send(rng.choice(GARBAGE))
+                else:
+                    if not t[3]:
+                        reply(used, pos_cmd(t[0], t[1]), rng.choice(["go", "go wtime 130 btime 130 movestogo 1", "go wtime 110 btime 110"]))
+                    else:
+                        used.send(pos_cmd(t[0], t[1]))
+            used.isready()
+            # zero allowance: identical bestmove
+            a = reply(fresh, cmd, "go")
+            b = reply(used, cmd, "go")
+            o.evaluations += 2
+            if a[-1] != b[-1] or a[-1] is None:
+                ok = False
+                o.violation("input", "zero-allowance answer differs after earlier traffic: fresh %r, used %r: %s" % (a[-1], b[-1], cmd), {"case": cmd, "fresh": a, "used": b})
+            # repeating the same request gives the same result
+            c = reply(used, cmd, "go")
+            if c[-1] != b[-1]:
+                ok = False
+                o.violation("input", "repeating the request changes the answer: %r then %r: %s" % (b[-1], c[-1], cmd), {"case": cmd})
+            # timed allowance: improvements identical up to where the shorter run stopped
+            go = "go wtime 160 btime 160 movestogo 1"
+            ia = improvements(reply(fresh, cmd, go))
+            ib = improvements(reply(used, cmd, go))
+            o.evaluations += 2
+            k = min(len(ia), len(ib))
+            if ia[:k] != ib[:k]:
+                okt = False
+                j = next(x for x in range(k) if ia[x] != ib[x])
+                o.violation("input", "timed search reports differ at improvement %d: fresh %s, used %s: %s" % (j, ia[j], ib[j], cmd), {"case": cmd, "fresh": ia, "used": ib})
+            if len(o.samples) < 6:
+                o.samples.append({"probe": cmd, "zero": a[-1], "improvements_compared": k})
+            o.distinct += 1
+        finally:
+            fresh.close()
+            used.close()
+    o.oblige("zero-allowance bestmove identical to a fresh engine's after arbitrary traffic; repeat gives the same (%d probes)" % len(probes), ok)
+    o.oblige("timed improvements (depth, nodes, score, first pv move) identical up to the shorter run", okt)
+    o.rule = "probe positions from specification-generated games, each asked of a fresh process and of a process that first served 2-6 items of traffic (games, timed and zero searches, ucinewgame, setoption, garbage); zero allowance compared exactly, 48 ms searches compared as prefixes; non-trivial = one probe"
+    o.assumptions.append("timed runs are sampled under real scheduling")
+
+
+@prop("C17", "C17.v", ["C17_clean_input_no_double_space", "C17_unknown_ignored", "C17_eof_exits"], binary=True)
+def run_c17(o, tier, rng, prep):
+    import blackbox
+    # clean_input against the words of the line
+    n = 800 if tier == "quick" else 30000
+    alphabet = [chr(c) for c in WS] + list("abcgo wtime1234567890-") + ["é", "∀", "​", "\x1c", "\x1f", "᠎", "﻿", "𝔸"]
+    strs = ["", " ", "\n", "   debug     on  \n", "\t  debug \t  \t\ton\t  \n", "isready\r\n", " go　wtime 1\n"]
+    for _ in range(n):
+        strs.append("".join(rng.choice(alphabet) for _ in range(rng.randrange(0, 30))))
+    res = V.run_cases(["clean\t" + gens.hexs(s) for s in strs])
+    mm, _ = V.compare(res, use_spec=False)
+    report(o, "clean_input on strings over Unicode white space, near-white-space and text", res, mm, [], nontrivial=lambda r: (r.get("I") or "") != "clean ")
+    okc = True
+    for s, r in zip(strs, res):
+        got = (r.get("I") or "")[6:]
+        want = gens.hexs(" ".join(spec_words(s)))
+        if got != want:
+            okc = False
+            o.violation("input", "clean_input(%r) is not the line's words joined by single spaces" % s, {"case": r["case"], "impl": got, "expected": want})
+    o.oblige("clean_input = words joined by single spaces (Unicode White_Space)", okc)
+    # sessions with garbage on the real binary
+    ok = True
+    nsess = 6 if tier == "quick" else 60
+    for si in range(nsess):
+        eng = blackbox.Engine(V.BINARY)
+        try:
+            eng.handshake()
+            eng.send("position startpos moves e2e4")
+            script = []
+            for _ in range(rng.randrange(3, 12)):
+                g = rng.choice(GARBAGE + ["go wtime 120 btime 120 movestogo 1 ponder searchmoves", "isready"])
+                script.append(g)
+                w = spec_words(g)
+                first = w[0] if w else ""
+                if first in ("quit", "position", "uci", "setoption", "ucinewgame"):
+                    continue
+                eng.send(g)
+                o.evaluations += 1
+                if first == "go":
+                    ls = eng.read_until(lambda l: l.startswith("bestmove"), 8)
+                    if ls[-1] is None:
+                        ok = False
+                        o.violation("input", "go with unknown tokens not answered: %r" % script, {"script": script})
+                elif first == "isready":
+                    ls = eng.read_until(lambda l: l == "readyok", 4)
+                    if ls[-1] != "readyok":
+                        ok = False
+                        o.violation("input", "isready not answered: %r" % script, {"script": script})
+                else:
+                    l = eng.read_line(0.02)
+                    if l is not None and not l.startswith("info"):
+                        ok = False
+                        o.violation("input", "unknown line %r produced output %r" % (g, l), {"script": script, "line": l})
+            # state unchanged by the garbage: black to move after e2e4, the answer is a black move
+            if not eng.isready():
+                ok = False
+                o.violation("input", "isready not answered after garbage: %r" % script, {"script": script, "stderr": eng.stderr_text()})
+            # lifecycle: quit or end of input ends the process promptly
+            if si % 2 == 0:
+                eng.send("quit")
+                how = "quit"
+            else:
+                eng.close_stdin()
+                how = "end of input"
+            st = eng.wait_exit(3)
+            if st is None:
+                ok = False
+                o.violation("input", "process still running 3 s after %s: %r" % (how, script), {"script": script, "how": how})
+            hist_add(o, "ended by " + how)
+            if len(o.samples) < 6:
+                o.samples.append({"script": script, "ended_by": how, "exit_status": st})
+            o.distinct += 1
+        finally:
+            eng.close()
+    # end of input at every point of a small session
+    base = ["uci", "isready", "position startpos", "go wtime 110 btime 110", "isready", "setoption name DebugLogLevel value None"]
+    for cut in range(0, len(base) + 1):
+        eng = blackbox.Engine(V.BINARY)
+        try:
+            for l in base[:cut]:
+                eng.send(l)
+            time.sleep(0.05)
+            eng.close_stdin()
+            st = eng.wait_exit(4)
+            o.evaluations += 1
+            if st is None:
+                ok = False
+                o.violation("input", "process spins after end of input following %r" % base[:cut], {"script": base[:cut]})
+        finally:
+            eng.close()
+    o.oblige("garbage ignored, isready answered, quit and end of input end the process (real binary)", ok)
+    o.rule = "strings over the 25 Unicode White_Space characters, look-alikes that are not white space (U+200B, U+180E, U+FEFF, U+001C..1F) and text for clean_input; sessions on the real binary mixing unknown commands, empty and white-space lines, Unicode garbage, go with unknown tokens and isready, ended alternately by quit and by closing stdin; end of input after every prefix of a six-line session; non-trivial = non-empty cleaned line / one session"
+    o.assumptions.append("lines are valid UTF-8 text (UCI is a text protocol); malformed values of known go tokens are outside the property's domain")
